@@ -704,3 +704,59 @@ Proof.
   replace (16 + S k)%nat with (S (16 + k))%nat by lia.
   rewrite autoprobe_fuel_enough; [exact IH | pose proof autoprobe_fuel_16; lia].
 Qed.
+
+(* ---- (5) where the challenge comes from --------------------------------------------------------------------- *)
+
+(* what a wait returns was extracted from one of the datagrams of the script, under the id and letter of the query *)
+Lemma waitdns_go_read cid lastc c1 c2 buflen l buf r :
+  waitdns_go cid lastc c1 c2 buflen l = (WRead buf, r) ->
+  exists m d, In (ID m d) l /\
+    let d' := subst m cid lastc d in
+    let x := client_extract buflen d' (length d') in
+    fits cid c1 c2 x = true /\ buf = firstn (Z.to_nat (da_rv x)) (da_out x).
+Proof.
+  induction l as [|it t IH]; cbn [waitdns_go]; [discriminate |].
+  destruct it as [|m d]; [discriminate |].
+  destruct (fits cid c1 c2 _) eqn:F; cbn [negb].
+  - destruct (da_rv _ <? 0)%Z; [discriminate |].
+    intros H; inversion H; subst.
+    exists m, d; split; [left; reflexivity | split; [exact F | reflexivity]].
+  - intros H; destruct (IH H) as (m' & d' & Hin & Hx). exists m', d'; split; [right; exact Hin | exact Hx].
+Qed.
+
+(* handshake_version returns 0 only with the challenge and user id that cli_version reads from a reply that fitted one
+   of its (at most five) version queries; nothing else writes h_seed / h_uid in that step *)
+Lemma version_sound n : forall s l,
+  fst (fst (attempts n version_body (ret 1%Z) s l)) = 0%Z ->
+  exists m d cid,
+    In (ID m d) l /\
+    let d' := subst m cid 118 d in
+    let x := client_extract cap_full d' (length d') in
+    fits cid 118 86 x = true /\
+    cli_version (firstn (Z.to_nat (da_rv x)) (da_out x)) =
+      Some (h_seed (snd (fst (attempts n version_body (ret 1%Z) s l))), h_uid (snd (fst (attempts n version_body (ret 1%Z) s l)))).
+Proof.
+  induction n as [|n IH]; intros s l; cbn [attempts]; [cbn; discriminate |].
+  unfold bind, version_body, ask, modify, waitdns. unfold bind.
+  destruct (waitdns_go (h_cid (send 118 s)) (h_lastc (send 118 s)) 118 86 cap_full l) as [w r] eqn:E.
+  assert (Hsub : forall m d, In (ID m d) r -> In (ID m d) l).
+  { intros m d Hin. destruct (waitdns_go_suffix (h_cid (send 118 s)) (h_lastc (send 118 s)) 118 86 cap_full l) as [pre Hp].
+    rewrite E in Hp; cbn [snd] in Hp. rewrite Hp. apply in_or_app; right; exact Hin. }
+  assert (Hrec : forall s1, fst (fst (attempts n version_body (ret 1%Z) s1 r)) = 0%Z ->
+            exists m d cid, In (ID m d) l /\
+              let d' := subst m cid 118 d in let x := client_extract cap_full d' (length d') in
+              fits cid 118 86 x = true /\
+              cli_version (firstn (Z.to_nat (da_rv x)) (da_out x)) =
+                Some (h_seed (snd (fst (attempts n version_body (ret 1%Z) s1 r))), h_uid (snd (fst (attempts n version_body (ret 1%Z) s1 r))))).
+  { intros s1 H. destruct (IH s1 r H) as (m & d & cid & Hin & Hx). exists m, d, cid. split; [apply Hsub; exact Hin | exact Hx]. }
+  destruct w as [| |buf]; cbn [ret fst snd].
+  - intros H; exact (Hrec _ H).
+  - intros H; exact (Hrec _ H).
+  - destruct (9 <=? length buf)%nat; cbn [ret fst snd]; [|intros H; exact (Hrec _ H)].
+    destruct (cli_version buf) as [[seed uid]|] eqn:Ev; cbn [ret fst snd].
+    + intros _.
+      destruct (waitdns_go_read _ _ _ _ _ _ _ _ E) as (m & d & Hin & Hf & Hb).
+      exists m, d, (h_cid (send 118 s)). split; [exact Hin |]. split; [exact Hf |].
+      change (h_lastc (send 118 s)) with 118 in Hb. cbv zeta in Hb. rewrite <- Hb. rewrite Ev. reflexivity.
+    + destruct (has_prefix s_VNAK buf || has_prefix s_VFUL buf); cbn [ret fst snd]; [discriminate | intros H; exact (Hrec _ H)].
+Qed.
